@@ -114,3 +114,11 @@ func pNode(sb *strings.Builder, n *html.Node, ids map[*html.Token]int) {
 	}
 	sb.WriteString(">")
 }
+
+func sortStrings(xs []string) {
+	for i := 1; i < len(xs); i++ {
+		for j := i; j > 0 && xs[j] < xs[j-1]; j-- {
+			xs[j], xs[j-1] = xs[j-1], xs[j]
+		}
+	}
+}
